@@ -216,6 +216,11 @@ impl<'a, H: HashChain> InMemoryHssPublicKey<'a, H> {
 
         let public_key = InMemoryLmsPublicKey::new(&data[index..])?;
 
+        // RFC 8554 demands the exact length: reject trailing data
+        if data.len() != index + public_key.as_slice().len() {
+            return None;
+        }
+
         Some(Self {
             public_key,
             level: level as usize,
